@@ -337,13 +337,15 @@ func (c *Conn) WriteControl(messageType int, data []byte, deadline time.Time) er
 }
 
 func (c *Conn) WriteMessage(messageType int, data []byte) error {
-	return c.writeFrame(Frame{Type: messageType, Data: append([]byte(nil), data...)}, messageType >= CloseMessage)
+	// gorilla's WriteMessage runs every frame type (also close and ping) through flushFrame, which panics on
+	// overlapping writers; only WriteControl (and the automatic pong / close replies) is safe concurrently
+	return c.writeFrame(Frame{Type: messageType, Data: append([]byte(nil), data...)}, false)
 }
 
 func (c *Conn) WriteJSON(v any) error { return errors.New("fakews: WriteJSON not modelled") }
 
 func (c *Conn) writeFrame(f Frame, control bool) error {
-	// like gorilla: detect concurrent writers of data frames
+	// like gorilla: detect concurrent writers (WriteMessage / NextWriter; not WriteControl)
 	if !control {
 		if c.isWriting {
 			panic("concurrent write to websocket connection")
